@@ -1,16 +1,14 @@
 SPECIFICATION Spec
 CONSTANTS
   Dgrams <- MCDev1
-  Configs <- MCConfigsNoClock
+  Configs <- MCConfigsFull
   MaxDgrams = 2
   MaxBlocks = 2
 INVARIANT TypeOK
 INVARIANT ReturnOnlyGenuine
+INVARIANT ReturnSound
 INVARIANT GenuineEnds
 INVARIANT SpoofCannotEnd
 INVARIANT VerdictTotal
 INVARIANT DeadlineRespected
-PROPERTY SkipKeepsListening
-PROPERTY EndIsFinal
-PROPERTY Terminates
 CHECK_DEADLOCK FALSE
